@@ -397,3 +397,62 @@ Example C10_printed_value_ends_its_line_nonvacuous :
   forallb (fun p => okq (fst p)) ts = true /\
   map t_line (lex (print ts)) = [1; 1; 1; 1; 3]%Z.
 Proof. vm_compute. auto. Qed.
+
+(* ---------- where an import argument points ---------- *)
+
+(* A relative import argument (no meta characters, not a snippet name) is looked up in the DIRECTORY OF
+   THE FILE THAT CONTAINS THE IMPORT TOKEN: in every world whose glob oracle follows filepath's rule
+   (globs_resolve_ok: checked against the real filepath.Glob on every run), for every parser state and
+   every token the cursor is on, the files spliced in are exactly the known paths equal to
+   Join(Dir(file of the token), argument) - whatever was imported before, by whatever name. *)
+Theorem C10_import_resolves_relative_to_importer :
+  forall globs files abspaths known st t pat af ids,
+  globs_resolve_ok abspaths known globs = true ->
+  tok_at st (p_cursor st) = Some t -> lookup_f abspaths (t_file t) = Some af ->
+  lookup_s (p_snips st) pat = None -> glob_ok pat = true -> has_meta pat = false -> is_abs pat = false ->
+  lookup_g globs (t_file t) pat = Some ids ->
+  ids = literal_matches known (fjoin (path_dir af) pat) /\
+  imported_tokens globs files st pat =
+    match literal_matches known (fjoin (path_dir af) pat) with
+    | [] => if has_glob_char pat then POk [] else PErr EImport
+    | l => import_files files l
+    end.
+Proof. exact import_resolves_relative_to_importer. Qed.
+Print Assumptions C10_import_resolves_relative_to_importer.
+
+(* an absolute argument is taken as written, wherever the import statement stands *)
+Theorem C10_import_absolute_as_written :
+  forall globs abspaths known st t pat af ids,
+  globs_resolve_ok abspaths known globs = true ->
+  tok_at st (p_cursor st) = Some t -> lookup_f abspaths (t_file t) = Some af ->
+  has_meta pat = false -> is_abs pat = true ->
+  lookup_g globs (t_file t) pat = Some ids ->
+  ids = literal_matches known pat.
+Proof. exact import_absolute_as_written. Qed.
+Print Assumptions C10_import_absolute_as_written.
+
+(* the same relative name written in files of two directories, each directory holding its own file of
+   that name: each import site gets the file of ITS directory *)
+Theorem C10_same_import_name_in_two_directories :
+  forall globs files abspaths known st1 st2 t1 t2 pat af1 af2 i1 i2 ids1 ids2,
+  globs_resolve_ok abspaths known globs = true ->
+  NoDup (map snd known) ->
+  tok_at st1 (p_cursor st1) = Some t1 -> lookup_f abspaths (t_file t1) = Some af1 ->
+  tok_at st2 (p_cursor st2) = Some t2 -> lookup_f abspaths (t_file t2) = Some af2 ->
+  glob_ok pat = true -> has_meta pat = false -> is_abs pat = false ->
+  lookup_s (p_snips st1) pat = None -> lookup_s (p_snips st2) pat = None ->
+  In (i1, fjoin (path_dir af1) pat) known -> In (i2, fjoin (path_dir af2) pat) known ->
+  lookup_g globs (t_file t1) pat = Some ids1 -> lookup_g globs (t_file t2) pat = Some ids2 ->
+  imported_tokens globs files st1 pat = import_files files [i1] /\
+  imported_tokens globs files st2 pat = import_files files [i2].
+Proof. exact same_name_two_directories. Qed.
+Print Assumptions C10_same_import_name_in_two_directories.
+
+Example C10_import_resolves_relative_to_importer_nonvacuous :
+  globs_resolve_ok (abs_of w_base w_names) (known_of w_base w_names) w_globs = true /\
+  lookup_g w_globs 5 (bs "common.conf"%string) = Some [4] /\
+  lookup_g w_globs 8 (bs "common.conf"%string) = Some [7] /\
+  w_result = Some
+      [([bs "a.example"], [(bs "root", [bs "root"; bs "/srv/a"])]);
+       ([bs "b.example"], [(bs "root", [bs "root"; bs "/srv/b"]); (bs "basicauth", [bs "basicauth"; bs "/"; bs "u"; bs "p"])])]%string.
+Proof. exact two_directories_witness. Qed.
